@@ -70,6 +70,15 @@ Proof.
   - cbn. now rewrite andb_false_r.
 Qed.
 
+(* the switch-off step of _authn_response (fix: 28208820) never fires when the SP has a certificate *)
+Lemma enc_req_flag ca g (a : bool) : has_cert_for ca g ->
+  (if true && a && is_cnone ca && negb (negb (is_nil (g_md_certs g))) then false else true) = true.
+Proof.
+  intros [H|(k & u & ->)].
+  - destruct (g_md_certs g); [congruence|]. cbn. now rewrite !andb_false_r.
+  - cbn. now rewrite !andb_false_r.
+Qed.
+
 (* ---------- non-interference: the visible part does not depend on the protected identity ---------- *)
 
 Lemma response_view p b k ea1 ea2 : visible ea1 = visible ea2 ->
@@ -92,7 +101,7 @@ Lemma confidential_main g i1 i2 :
   vis (idp_build g i1) = vis (idp_build g i2).
 Proof.
   intros He Hc. apply vis_same. unfold idp_build, idp_build_with. destruct (gather g); [|reflexivity]. unfold response_with. rewrite He.
-  rewrite (has_cert_flag _ g true Hc). cbn [negb andb orb]. rewrite !andb_false_r. cbn [andb orb].
+  rewrite (enc_req_flag _ g _ Hc). rewrite (has_cert_flag _ g true Hc). cbn [negb andb orb]. rewrite !andb_false_r. cbn [andb orb].
   pose proof (has_cert_certs _ _ Hc) as Hne.
   set (flag := if negb (negb (is_nil (g_md_certs g))) && is_cnone (g_cert_advice g) then false else g_enc_advice g || g_pefim g).
   assert (forall (A1 A2 : result (list xml)),
@@ -290,7 +299,7 @@ Lemma all_certs_unusable_raises g i :
   exists e, idp_build g i = Err e.
 Proof.
   intros He Hc Hall. unfold idp_build, idp_build_with. destruct (gather g) as [[]|e0]; [|now exists e0]. unfold response_with. rewrite He.
-  rewrite (has_cert_flag _ g true Hc). cbn [negb andb orb]. rewrite !andb_false_r. cbn [andb orb].
+  rewrite (enc_req_flag _ g _ Hc). rewrite (has_cert_flag _ g true Hc). cbn [negb andb orb]. rewrite !andb_false_r. cbn [andb orb].
   pose proof (has_cert_certs _ _ Hc) as Hne.
   match goal with |- exists e, (match ?x with _ => _ end) = _ => destruct x as [ak|e0]; [|now exists e0] end.
   unfold encrypt_main, encrypt_with. rewrite (cert_loop_all_bad _ false Hne Hall).
